@@ -968,15 +968,18 @@ func runC07(r *Run) {
 			// documents with awkward keys
 			keys := []string{"a", "b c", "x/y", "t~u", "0", "12", "K", "k", " k", "é", "a.b", "-", "_u", "a~1b", "a~0b", "~", "~1", "~0~1", "a~01", "/", "a/~b",
 				"liquid", "costarring", "declinate", "macallums", "altarage", "zinke", "plumless", "buckeroo", "Aa", "BB", "007", "010", "m²", "Ⅷ", "CO₂", "½", "二〇二四", "K", "İ", "struct field", "not found", "key",
-				"OR", "or", "IN", "in", "AS", "as", "ALL", "all", "ANY", "any", "NOT", "not", "IS", "is", "EMPTY", "empty", "AND", "and", "MATCHES", "matches", "CONTAINS", "contains", "Or", "nOt"}
+				"OR", "or", "IN", "in", "AS", "as", "ALL", "all", "ANY", "any", "NOT", "not", "IS", "is", "EMPTY", "empty", "AND", "and", "MATCHES", "matches", "CONTAINS", "contains", "Or", "nOt",
+				"18446744073709551557", "9223372036854775808", "99999999999999999999999", "4294967296", "00000000000000000000001"}
 			leaf := pick(rng, []interface{}{1, "a", []interface{}{1, "a"}, map[string]interface{}{"z": 1}, nil, ""})
 			k1, k2, k3 := pick(rng, keys), pick(rng, keys), pick(rng, keys)
-			d = map[string]interface{}{"m": map[string]interface{}{k1: map[string]interface{}{k2: leaf, k3: []interface{}{leaf, 1}}}, "l": []interface{}{1}}
-			parts = []string{"m", k1, pick(rng, []string{k2, k3})}
+			// the first part is an identifier that begins like a keyword about one time in two
+			k0 := pick(rng, []string{"m", "m", "m", "m", "m", "m", "m", "m", "m", "m", "m", "m", "notes", "note", "notBefore", "nothing", "android", "order", "orbit", "anyone", "allow", "inner", "island", "asx", "emptyx", "matchesx", "containsx"})
+			d = map[string]interface{}{k0: map[string]interface{}{k1: map[string]interface{}{k2: leaf, k3: []interface{}{leaf, 1}}}, "l": []interface{}{1}}
+			parts = []string{k0, k1, pick(rng, []string{k2, k3})}
 			if rng.Pct(30) {
 				parts = append(parts, "0")
 			} else if rng.Pct(30) {
-				parts = []string{"m", k1} // the map whose keys are awkward is itself the selected value / quantified collection
+				parts = []string{k0, k1} // the map whose keys are awkward is itself the selected value / quantified collection
 			}
 			if rng.Pct(15) {
 				parts[1] = strings.ToUpper(parts[1]) // case must matter
@@ -1399,6 +1402,7 @@ func runC14(r *Run) {
 		"any m as m, v { v.x == 1 }", "all m as m, v { v.x != 7 }", "any o.m as o, v { v.x == 1 }", "any m as k, v { any v as v, w { w == 1 } }", "all m as zz, v { v.x != 1 or zz == a }"}
 	elems := []interface{}{map[string]interface{}{"x": 1}, map[string]interface{}{"x": 2}, 5, "s", nil, map[string]interface{}{}, map[string]interface{}{"x": "1"}, []interface{}{1}, map[string]interface{}{"x": 1, "y": 2}}
 	keys := []string{"a", "b", "c", "d", "e", "f", "g", "h", "i", "j", "k", "l", "m", "n", "o", "p", "q"}
+	numKeys := []string{"7", "07", "+7", "9", "10", "1a", "-0", "0", "00", "1e3", "0x10", "010", "8", "08", "1_0", "007", "7.0", "a"} // keys a "numeric aware" order ties or cycles on
 	oddKeys := []string{"k\xfe", "k\xff", "\xff", "\ufffd", "k\xc0", "a", "", "é", "e\u0301", "z", "not", "0", "true", "-0", "NaN", "in", "k\x00", "K"}
 	for i := 0; i < n; i++ {
 		rng = NewRng(mix(r.Seed, strHash("C14"), uint64(i)))
@@ -1409,6 +1413,8 @@ func runC14(r *Run) {
 			ks := keys
 			if i%3 == 1 {
 				ks = oddKeys // keys that differ only in an invalid byte, or only after normalisation
+			} else if i%3 == 2 {
+				ks = numKeys
 			}
 			for j := 0; j < sz; j++ {
 				m[ks[j]] = elems[rr.Intn(len(elems))]
